@@ -62,6 +62,9 @@ func menu(w *world, c cfg) []op {
 	if !w.px.errNext {
 		m = append(m, op{K: "err-read"})
 	}
+	if !w.shut && w.km != nil {
+		m = append(m, op{K: "shutdown"}) // the node context is cancelled; requests in flight still arrive until the restart
+	}
 	return m
 }
 
@@ -197,8 +200,8 @@ func expand(w *world, c cfg, n node) *expansion {
 
 type seqStats struct {
 	States, Transitions, FaultRuns, Replays, Restores int
-	PerDepth                                []string
-	Complete                                bool
+	PerDepth                                          []string
+	Complete                                          bool
 }
 
 func short16(x string) string {
